@@ -78,6 +78,8 @@ void rs_build(rsig *s, const rs_params *p);
 #define RS_FIX_CALSHAPE 0x20   /* calendar link directions := shape(cal aggr time, pub time) */
 #define RS_FIX_ALL      0x3f
 int rs_fix(rsig *s, unsigned what);
+/* calendar path of second t in the tree published at P (virtual calendar siblings); returns link count or -1 */
+int rs_calendar_links(uint64_t t, uint64_t P, rlink *out, int max);
 /* output of chain i starting at level `lvl`; returns 0 / -1 rejected / -2 not computable */
 int rs_chain_output(const rsig *s, int i, int start_level, unsigned char out[RH_MAX_IMPRINT], size_t *out_len, int *out_level);
 int rs_aggr_root(const rsig *s, int start_level, unsigned char out[RH_MAX_IMPRINT], size_t *out_len, int *out_level);
